@@ -89,6 +89,22 @@ def creation_probes(kind, keys, maxp, maxlen=3, ops=("from_vec", "from_iter", "d
     return out
 
 
+def append_probes(kind, keys, maxp):
+    """two independently created queues appended in both directions (equal, shorter and longer other; clashing
+    items), then keyed operations on the moved and on the clashing items"""
+    pm = "pop" if kind == "pq" else "pop_min"
+    out = []
+    others = [[], [["z", 1]], [[keys[0], maxp]], [[keys[0], maxp], ["z", 0]], [[keys[0], 0], [keys[-1], maxp]],
+              [[keys[0], 0], [keys[-1], maxp], ["z", 1]], [[keys[0], 0], [keys[-1], maxp], ["z", 1], ["y", 0]]]
+    for oth in others:
+        build = [{"op": "new", "q": 2}] + [{"op": "push", "q": 2, "k": k, "r": r} for k, r in oth]
+        after = [{"op": "contents"}, {"op": "change_priority", "k": "z", "r": maxp}, {"op": "remove", "k": keys[0]},
+                 {"op": "push", "k": "z", "r": 0}, {"op": "push", "k": keys[-1], "r": 1}, {"op": pm}, {"op": "contents"}]
+        out.append(build + [{"op": "append", "q": 1, "o": 2}] + after)
+        out.append(build + [{"op": "append", "q": 2, "o": 1}] + [dict(a, q=2) for a in after])
+    return out
+
+
 def p_C01(tier, seed):
     n, mp = scope(tier, (4, 2), (5, 2))
     f = engines.engine_A("C01", ["pq"], n, mp, light, ["sorted:pop"])
@@ -118,6 +134,8 @@ def p_C02(tier, seed):
 def p_C03(tier, seed):
     n, mp = scope(tier, (3, 2), (5, 2))
     f = engines.engine_A("C03", ["pq", "dpq"], n, mp, light, ["contents"])
+    f.merge(engines.engine_A("C03", ["pq", "dpq"], n, mp, lambda p: False, ["contents"], extra_probes=append_probes,
+                             wd_name="C03a", max_states=scope(tier, 40, None)))
     nh, nk, no = scope(tier, (8, [8, 20], 300), (32, [8, 20, 50], 1500))
     f.merge(engines.engine_B("C03", ["pq", "dpq"], seed, nh, nk, no, check_every=5))
     return f
@@ -281,7 +299,7 @@ def p_C06(tier, seed):
 
 
 # ------------------------------------------------------------------ C07 bulk construction / extend / append
-HINTS = [None, [0, -1], "actual", "actual+3", [0, -4], [0, -2], [0, -3], "lo_actual"]
+HINTS = [None, [0, -1], "actual", "actual+3", [0, -4], [0, -2], [0, -3], [0, -5], "lo_actual"]
 
 
 def hint_for(h, m):
@@ -594,6 +612,19 @@ def p_C17(tier, seed):
                 mixed.append(st)
             cases.append({"case": [kind, "cap", i], "kind": kind, "hasher": "std", "universe": keys, "steps": mixed,
                           "probes": [], "wit": []})
+    # large requested capacities (a constructor must not silently cap them)
+    for kind in ("pq", "dpq"):
+        for how in ("with_capacity", "with_capacity_and_default_hasher"):
+            for capn in (5000, 70000, 300000, 1 << 20):
+                cases.append({"case": [kind, "bigcap", how, capn], "kind": kind, "hasher": "std", "universe": ["a", "b"],
+                              "steps": [{"op": "new", "q": 0, "how": how, "cap": capn}, {"op": "push", "k": "a", "r": 1},
+                                        {"op": "push", "k": "b", "r": 2}, {"op": "pop" if kind == "pq" else "pop_max"},
+                                        {"op": "contents"}],
+                              "probes": [], "wit": []})
+        for capn in (5000, 70000, 300000):
+            cases.append({"case": [kind, "bigcap", "hasher", capn], "kind": kind, "hasher": "fixed", "universe": ["a"],
+                          "steps": [{"op": "new", "q": 0, "how": "with_capacity_and_hasher", "cap": capn}, {"op": "push", "k": "a", "r": 1},
+                                    {"op": "contents"}], "probes": [], "wit": []})
     wd = vlib.workdir("C17_R")
     t = engines.Findings()
     t.stats["engines"].append({"engine": "B-cap", "cases": len(cases)})
@@ -670,7 +701,7 @@ PROPS = {
             "relevant": lambda fl: (fl["op"] == "sorted" and fl["event"].get("mode") in ("vec", "iter", "asc_vec", "desc_vec")) or
             (fl["op"] == "into_calls" and fl["cause"].get("it") == "sorted"
              and bool(set(fl["tags"]) & {"iter_order", "iter_last", "iter_dup", "iter_unknown", "iter_missing", "iter_after_none", "iter_len"}))},
-    "C07": {"run": p_C07, "level": "model_checking",
+    "C07": {"run": p_C07, "level": "model_checking", "aborts": True,
             "relevant": lambda fl: fl["cause_op"] in BULK},
     "C08": {"run": p_C08, "level": "model_checking",
             "relevant": lambda fl: fl["cause_op"] in INPLACE},
@@ -679,7 +710,7 @@ PROPS = {
     "C13": {"run": p_C13, "level": "model_checking",
             "relevant": lambda fl: fl["op"] in ("iter_calls", "into_calls")
             and fl["cause"].get("it") in ("iter", "iter_ref", "into_iter", "drain", "sorted")
-            and bool(set(fl["tags"]) & {"iter_dup", "iter_unknown", "iter_missing", "iter_after_none", "iter_len", "iter_hint", "iter_panic", "iter_last"})},
+            and bool(set(fl["tags"]) & {"iter_dup", "iter_unknown", "iter_missing", "iter_after_none", "iter_len", "iter_hint", "iter_panic", "iter_last", "iter_position"})},
     "C14": {"run": p_C14, "level": "model_checking",
             "relevant": lambda fl: fl["op"] in ("eq", "ne", "clone") or fl["phase"] == "hist"
             or (fl["op"] in ("contents",) and fl.get("event", {}).get("q") == 0)},
